@@ -76,6 +76,9 @@ def build_term(yp, t, vars_):
             vars_[n] = yp.variable()
         return vars_[n]
     if k == 'a':
+        if t[1].startswith('$py:'):
+            # a Python value used as a constant (None, a str): in the model an atom with a reserved spelling
+            return {'$py:None': None, "$py:'txt'": 'txt'}[t[1]]
         return yp.atom(t[1])
     if k == 'i':
         return int(t[1])
@@ -106,8 +109,25 @@ def _canon_terms(terms):
             return [Sym('pybool'), str(t)]
         if isinstance(t, int):
             return [Sym('i'), t]
-        return [Sym('py'), repr(t)]
+        return [Sym('a'), '$py:' + repr(t)]
     return [go(t) for t in terms]
+
+
+def _variables_of(terms):
+    """id -> Variable for the unbound variables reachable from the terms (the objects are kept, so that
+    an id is not reused while it is remembered)"""
+    out = {}
+
+    def go(t):
+        t = E.get_value(t)
+        if isinstance(t, E.Variable):
+            out[id(t)] = t
+        elif isinstance(t, E.Functor):
+            for a in t._args:
+                go(a)
+    for t in terms:
+        go(t)
+    return out
 
 
 def flatten_terms(ts):
@@ -123,8 +143,13 @@ def flatten_terms(ts):
     return out
 
 
+def is_bound(v):
+    """through the public behaviour of a variable (its representation is the engine's business)"""
+    return E.get_value(v) is not v
+
+
 def bound_count():
-    return sum(1 for v in list(E._verif_variables) if v._is_bound)
+    return sum(1 for v in list(E._verif_variables) if is_bound(v))
 
 
 def exn_name(e):
@@ -142,7 +167,7 @@ def exn_name(e):
 
 
 # ---------------------------------------------------------------- python predicates
-def make_pypred(yp, rows, raise_at, yield_val=False, nparams=None):
+def make_pypred(yp, rows, raise_at, yield_val=False, nparams=None, star=False):
     """A generator function that behaves like the facts `rows` (each row: (nvars, [terms]))."""
     def impl(*args):
         for i, (nv, terms) in enumerate(rows):
@@ -164,6 +189,9 @@ def make_pypred(yp, rows, raise_at, yield_val=False, nparams=None):
             raise user_exception('end of %d' % len(rows))
     if nparams is None:
         return impl
+    if star and nparams >= 1:
+        names = ','.join(['a%d' % i for i in range(nparams - 1)] + ['*rest'])
+        return eval('lambda %s: impl(%s)' % (names, names), {'impl': impl})
     names = ','.join('a%d' % i for i in range(nparams))
     return eval('lambda %s: impl(%s)' % (names, names), {'impl': impl})
 
@@ -231,6 +259,10 @@ class RealEngine:
         elif style == 'inferred':
             f = make_pypred(self.yp, rows, raise_at, yield_val, nparams=arity)
             self.yp.register_function(name, f)
+        elif style == 'inferred-star':
+            # `def f(a1, .., *rest)`: the arity is the number of parameters, the starred one included
+            f = make_pypred(self.yp, rows, raise_at, yield_val, nparams=arity, star=True)
+            self.yp.register_function(name, f)
         else:
             f = make_pypred(self.yp, rows, raise_at, yield_val)
             self.yp.register_function(name, f, arity=arity)
@@ -253,6 +285,7 @@ class RealEngine:
 
     def query(self, name, terms, sched=('all',), how='close'):
         args = [self.term(t) for t in terms]
+        own = _variables_of(args)          # the caller's own unbound variables may of course recur
         answers = []
         saved = []        # the documented idiom: [v.get_value() for _ in q], read after the query
         ending = Sym('done')
@@ -294,6 +327,18 @@ class RealEngine:
         del q
         gc.collect()
         res = [Sym('q'), answers, ending, bound_count()]
+        # C13/C15: the answers of a query are copies of its own - apart from the caller's variables, a
+        # variable left open in a saved answer of this query occurs in no saved answer of an earlier query
+        # (within one query, answers that differ only in a later choice do share the earlier part)
+        pool = self.__dict__.setdefault('_saved_pool', [])
+        mine = {}
+        for sv in saved:
+            mine.update({k: v for k, v in _variables_of(sv).items() if k not in own})
+        if any(k in old for old in pool for k in mine):
+            res.append([Sym('saved-answers-share-variables-with-an-earlier-query')])
+        if mine:
+            pool.append(mine)
+        del pool[:-30]
         # C15: a ground answer saved during the enumeration denotes the same term afterwards
         for a, sv in zip(answers, saved):
             if 'v' not in [str(x[0]) for x in flatten_terms(a)]:
@@ -408,6 +453,22 @@ def run_op(eng, op):
         return Sym('compile-did-not-fail')
     if k == 'query_load':
         return eng.query_load(op[1], op[2], op[3], op[4], op[5])
+    if k == 'prebuilt':
+        # "the query will only be constructed, but not evaluated": the query object is made first, another
+        # operation follows, then the query is enumerated - it is a call made at its first step
+        args = [eng.term(t) for t in op[2]]
+        q = eng.yp.query(op[1], args)
+        first = run_op(eng, op[3])
+        answers = []
+        ending = Sym('done')
+        try:
+            for _ in q:
+                answers.append(canon_terms(args))
+        except Exception as e:
+            ending = exn_name(e)
+        del q
+        gc.collect()
+        return [first, [Sym('q'), answers, ending, bound_count()]]
     raise ValueError(op)
 
 
@@ -417,8 +478,8 @@ def run_scenario(ops):
     out = []
     for op in ops:
         r = run_op(eng, op)
-        if op[0] == 'query_load':
-            out.extend(r)          # two results: the query, then the load
+        if op[0] in ('query_load', 'prebuilt'):
+            out.extend(r)          # two results
         else:
             out.append(r)
     return out
@@ -452,6 +513,9 @@ def scenario_model(ops, mode, fuel=4000):
             enc.append([Sym('query'), op[1], Sym('all')] + list(op[2]))
         elif k == 'compilefail':
             enc.append([Sym('loadfail')])
+        elif k == 'prebuilt':
+            enc.extend(scenario_model([op[3]], mode, fuel)[3:])
+            enc.append([Sym('query'), op[1], Sym('all')] + list(op[2]))
         elif k == 'query_load':
             # a call resolves at the moment it is made: the load performed while the query is
             # suspended does not change its answers; afterwards the load is in force
